@@ -617,7 +617,7 @@ static int get_array_block (char *term) {
           if (strlen (array_line[startchunk] + startpos) == (unsigned int)termlen)
             {
               current_line++;
-              outptr = yyp;
+              outptr = (c == LEX_EOF) ? yyp - 1 : yyp;	/* the end-of-input mark stays in the input */
             }
           else
             {
@@ -652,10 +652,10 @@ static int get_array_block (char *term) {
           /*
            * only report end of file in array block, if not an include file
            */
-          if (c == LEX_EOF && inctop == 0)
+          if (c == LEX_EOF)	/* also in an include file: what follows the mark is not input */
             {
               res = -1;
-              outptr = yyp;
+              outptr = yyp - 1;
               break;
             }
           if (c == '\n')
@@ -766,7 +766,7 @@ static int get_text_block (char *term) {
           if (strlen (text_line[startchunk] + startpos) == (unsigned int)termlen)
             {
               current_line++;
-              outptr = yyp;
+              outptr = (c == LEX_EOF) ? yyp - 1 : yyp;	/* the end-of-input mark stays in the input */
             }
           else
             {
@@ -837,10 +837,10 @@ static int get_text_block (char *term) {
           /*
            * only report end of file in text block, if not an include file
            */
-          if (c == LEX_EOF && inctop == 0)
+          if (c == LEX_EOF)	/* also in an include file: what follows the mark is not input */
             {
               res = -1;
-              outptr = yyp;
+              outptr = yyp - 1;
               break;
             }
           if (c == '\n')
@@ -932,6 +932,12 @@ static void skip_comment () {
           if ((c = *yyp++) == '/')
             {
               outptr = yyp;
+              return;
+            }
+          if (c == LEX_EOF)
+            {
+              outptr = --yyp;
+              lexerror ("End of file in a comment");
               return;
             }
           if (c == '\n')
@@ -1698,7 +1704,13 @@ int yylex () {
                 }
               else
                 {
-                  if (outptr == last_nl + 1)
+                  /* a directive on the last line of a file that has no final newline: the end-of-input mark
+                   * stays in the input (refilling and pushing back a newline would overwrite it) */
+                  int at_eof = (c == LEX_EOF);
+
+                  if (at_eof)
+                    outptr--;
+                  else if (outptr == last_nl + 1)
                     refill_buffer ();
 
                   if (strcmp ("define", yytext) == 0)
@@ -1767,7 +1779,8 @@ int yylex () {
                     {
                       yyerror ("Unrecognised # directive");
                     }
-                  *--outptr = '\n';
+                  if (!at_eof)
+                    *--outptr = '\n';
                   break;
                 }
             }
@@ -1791,6 +1804,14 @@ int yylex () {
           /* fall through */
         case '\'':
 
+          if (*outptr == LEX_EOF || (*outptr == '\\' && outptr[1] == LEX_EOF))
+            {
+              if (*outptr == '\\')
+                outptr++;
+              yyerror ("End of file in a character constant");
+              yylval.number = 0;
+              return L_NUMBER;
+            }
           if (*outptr++ == '\\')
             {
               switch (*outptr++)
@@ -2884,6 +2905,8 @@ static void refill () {
         }
     }
   while (c != '\n' && c != LEX_EOF);
+  if (c == LEX_EOF)
+    outptr--;			/* the end-of-input mark stays in the input */
   if ((c == '\n') && (outptr == last_nl + 1))
     refill_buffer ();
   p[-1] = ' ';
